@@ -71,7 +71,7 @@ theorem bisection_sound_simple (powf : K → K → K) (cs : List K) (v : Option 
   exact ⟨a, b, lt_of_lt_of_le hg hgate⟩
 
 example : (bisectCore (evOf fun x : ℚ => x - 1) 0 0 2 (1 / 1000) 5).out = .ok 1 := by
-  norm_num [bisectCore, bisectLoop, bisectPass, evOf, finish, sabs, gate, ratLit, SV.Gen.bisectionGate]
+  norm_num [bisectCore, bisectLoop, bisectPass, midpoint, finiteS, signTest, signumS, evOf, finish, sabs, gate, ratLit, SV.Gen.bisectionGate]
 
 /-! ## the initial guess is checked first -/
 
